@@ -81,4 +81,6 @@ Definition ok19 (c : rcase) : bool :=
   list_eqb' tev_eqb (o_events o)
     (List.concat (map (fun ia => bracket (c_tracers c) (if c_supplied c then CtxCaller else CtxFresh (fst ia)) (snd ia))
                       (combine (seq 0 (List.length sent)) sent)))
-  && forallb (fun t => Nat.eqb (count (is_begin t) (o_events o)) (count (is_done t) (o_events o))) (seq 0 (c_tracers c)).
+  && forallb (fun t => Nat.eqb (count (is_begin t) (o_events o)) (count (is_done t) (o_events o))) (seq 0 (c_tracers c))
+  (* what reaches the caller is the outcome of the LAST attempt the tracers saw - the very exception object, unchanged *)
+  && oattempt_eqb (o_final o) (nth_error (c_script c) (o_sends o - 1)).
